@@ -15,20 +15,26 @@
    FULL LIFE CYCLE (Model/VaultLife.v on top of Model/Vault.v): besides every vault / stable-mint message,
    unsolicited transfers and the environment (prices, time, ESM, breaker) the histories quantified over
    contain the wired generation-2 steps: seizure by liquidationsV2 (keeper message and BeginBlocker sweep),
-   successful dutch-auction bids (partial and closing, with ARBITRARY paid / received / top-up amounts), the
-   auctionsV2 block tick (restart of expired auctions) and the esm vault redemption set-up.  The vaults
+   successful dutch-auction bids (partial and closing; the amounts are environment values bounded as C10
+   proves), the auctionsV2 block tick (restart of expired auctions AND the ESM auction return TriggerEsm) and the
+   esm vault redemption set-up.  The vaults
    "currently awaiting auction settlement" are exactly the liquidationsV2 locked-vault records; the clause of
    the property about them is carried by [InvL] (Proofs/VaultLifeInv.v), which is [Inv01] of the books with
    the locked vaults' collateral and principal subtracted from the published totals.
-   Two known-finding classes delimit where the identity of the property text fails on the faithful model
+   [InvL] carries the identities corrected by ghost terms and holds in EVERY history, including those that run
+   into the two known-finding classes where the identity of the property text fails on the faithful model
    (both reproduced on the real keepers by the workload C01-life):
    - C01-F2 [kf_C01_2]: a closing bid subtracts the seized vault's DEBT (principal + accrued interest +
      closing fee) from TokenMintedAmount although only the principal was ever added; [drift] is the sum of
-     those excesses, and the tokens-minted clause holds exactly where it is zero.  [InvL] itself (the
-     identity corrected by [drift]) holds in every history.
-   - C01-F4 [kf_C01_4]: under emergency shutdown the auctionsV2 BeginBlocker hands an expired auction back
-     (TriggerEsm) by re-creating the vault without returning the collateral to custody and without closing
-     the auction, in every block.  Histories are required not to run the block tick in such a state.
+     those excesses.
+   - C01-F4 [kf_C01_4_denom / kf_C01_4_prod]: under emergency shutdown the auctionsV2 BeginBlocker hands an
+     expired auction back (TriggerEsm) by re-creating / topping up the owner's vault without returning the
+     collateral to custody, without a matching update of the totals and without closing the auction, in every
+     block; [er_short], [er_coll], [er_mint] accumulate what each return leaves unbacked.
+   The identity of the property text is proved wherever these ghosts are zero ([kf_C01_life] = false).
+   Hypotheses on a history ([hist_ok], Proofs/VaultLifeHist.v): signers / liquidators / bidders are not the
+   custody account, and the environment amounts of a successful bid respect the bounds Properties/C10.v
+   (c10_bid_amounts) proves for the auction arithmetic (paid <= debt left, received <= collateral left).
    The theorems named ..._messages_... are the earlier statements over histories of vault messages only. *)
 From Comdex Require Import Lib.Base Lib.Atomic Model.Vault Model.VaultExample Model.VaultLife Model.VaultLifeExample
   Proofs.VaultProofs Proofs.VaultInv Proofs.VaultLifeBase Proofs.VaultLifeInv Proofs.VaultLifeHist Proofs.VaultLifeWitness.
@@ -88,8 +94,8 @@ Theorem c01_life_init : forall c b sp t pr, (forall d, b VAULT d = 0) -> InvL c 
 Proof. exact invL_init. Qed.
 Print Assumptions c01_life_init.
 
-(* one step of any kind: vault message, seizure (keeper message or sweep), bid with arbitrary environment
-   amounts, auction block tick, esm vault redemption *)
+(* one step of any kind: vault message, seizure (keeper message or sweep), bid, auction block tick (restart or
+   ESM return), esm vault redemption *)
 Theorem c01_life_step : forall c lc l o l', cfg_ok c -> lop_ok l o -> InvL c l -> lrun c lc l o = Ok l' -> InvL c l'.
 Proof. exact lrun_invL. Qed.
 Print Assumptions c01_life_step.
@@ -152,16 +158,18 @@ Proof. exact settlement_totals_refuted. Qed.
 Print Assumptions c01_settlement_totals_refuted.
 
 (* C01-F4 refuted on the faithful model: two block ticks under emergency shutdown re-create the seized vault
-   twice (16000000 collateral recorded, nothing in custody, the auction still open) *)
+   twice (16000000 collateral recorded, nothing in custody, the auction still open); the history meets every
+   hypothesis, the ghost-corrected identities hold, the identities of the property text do not *)
 Theorem c01_esm_return_refuted :
-  exists c lc l0 ops, cfg_ok c /\ InvL c l0 /\
+  exists c lc l0 ops, cfg_ok c /\ InvL c l0 /\ hist_ok c lc l0 ops /\
     let l1 := lrun_all c lc (firstn 5 ops) l0 in
     let l := lrun_all c lc ops l0 in
-    hist_ok c lc l0 (firstn 5 ops) /\ nth 5 ops AucTick = AucTick /\ nth 6 ops AucTick = AucTick /\ length ops = 7%nat /\
+    nth 5 ops (Sweep []) = AucTick /\ nth 6 ops (Sweep []) = AucTick /\ length ops = 7%nat /\
     kf_C01_4 l1 true = true /\
     vaults (vs l) = [mkV 2 2 1 5 16000000 22400000 0 0] /\ bal (vs l) VAULT 1 = 0 /\ bal (vs l) AUC 1 = 8000000 /\
     zlen (lks l) = 1 /\ zlen (aus l) = 1 /\
-    c01l_custody c l 1 = false /\ c01l_coll l 1 5 = false /\ c01l_mint l 1 5 = false /\ holds_C01_life c [1; 2] l = false.
+    c01l_custody c l 1 = false /\ c01l_coll l 1 5 = false /\ c01l_mint l 1 5 = false /\ holds_C01_life c [1; 2] l = false /\
+    kf_C01_4_denom l 1 = true /\ kf_C01_4_prod l 1 5 = true /\ er_short l 1 = 16000000 /\ holds_C01_adj c [1; 2] l = true.
 Proof. exact esm_return_refuted. Qed.
 Print Assumptions c01_esm_return_refuted.
 
